@@ -25,7 +25,8 @@ RULE = ("gauleg(a,b,n): n in 1..200 (all of them on [-1,1] enumerated in both ti
         "methods; list/tuple/array ranges), unevenly spaced tables of 2..40 points, QGauss2 with nx!=ny "
         "and nx==ny on non-symmetric f(x,y); histories of 2..6 integrate calls on one QGauss object with "
         "changing/None npts. Non-trivial: n>=2 on a non-unit interval (rule/exact/func/data), nx!=ny or a "
-        "non-unit rectangle (gauss2d), a history with >=2 different npts. Distinct = distinct case JSON.")
+        "non-unit rectangle (gauss2d), a history with >=2 different npts. Distinct = distinct case JSON."
+        " Tabulated data: abscissa scales 1e-12..1e12, integer-typed abscissae, strided / record-field / byte-swapped arrays.")
 ASSUMPTIONS = [
     "intervals are finite with |b-a| >= 1e-9*max(|a|,|b|) (1e-5 for n>200): below that float64 cannot "
     "hold n distinct interior nodes, so 'strictly inside/ascending' cannot be meant",
